@@ -41,11 +41,68 @@ def cases(tier, seed):
                     "poses": [planted.POSES[int(x)] for x in rng.integers(0, len(planted.POSES), ncopies)],
                     "decoys": [] if minimal else ["mirror", "tangential", "tangential", "near_miss"][:int(rng.integers(1, 5))],
                     "schedule": ["real", "first", "last", "rr"][(j // 2) % 4]})
+    # a pattern as long as half a cell edge: the partner atom is reached through two periodic images at the same distance, both
+    # are genuine placements of the same atom group - whichever is reported, its positions and its rotation must belong together
+    for j in range(40 if tier == "quick" else 3000):
+        out.append({"kind": "half_cell", "s": int(rng.integers(1 << 30)), "cell": ["ortho", "tri"][j % 2], "atol": ATOLS[j % 4], "n": [2, 3, 4][j % 3]})
     return out
+
+
+def run_half_cell(case, ctx):
+    import mofun
+    from mofun import Atoms
+    from vmon.oracle import geometry as G
+    rng = np.random.default_rng(case["s"])
+    st = ctx.stats
+    atol = case["atol"]
+    ell = float(rng.uniform(2.2, 4.0))
+    # pattern: X - Y at distance ell along x, further atoms (if any) close to X off the axis
+    ppos = [[0.0, 0.0, 0.0], [ell, 0.0, 0.0]] + [[float(rng.uniform(0.3, 0.9)), float(rng.uniform(0.8, 1.3)) * (-1) ** k, float(rng.uniform(-0.6, 0.6))] for k in range(case["n"] - 2)]
+    pels = ["C", "N", "O", "S"][:case["n"]]
+    a = 2 * ell + float(rng.uniform(-0.4, 0.4)) * atol
+    b, c = rng.uniform(ell + 2 * atol + 2.5, ell + 2 * atol + 6.0, 2)
+    cell = np.diag([a, b, c])
+    if case["cell"] == "tri":
+        cell[1, 0], cell[2, 0], cell[2, 1] = rng.uniform(-0.3, 0.3) * a, rng.uniform(-0.3, 0.3) * a, rng.uniform(-0.3, 0.3) * b
+    if not np.all(G.perp_widths(cell) > G.diameter(np.array(ppos)) + 2 * atol + 0.2):
+        st.count("half_cell_cases_out_of_domain")
+        return
+    spin = G.rotation_about(np.array([1.0, 0.0, 0.0]), float(rng.uniform(0, 2 * np.pi)))
+    origin = rng.uniform(0.1, 0.9, 3).dot(cell)
+    pos = [np.array(p).dot(spin.T) + origin for p in ppos]
+    els = list(pels)
+    for _ in range(int(rng.integers(1, 5))):
+        for _try in range(50):
+            q = rng.uniform(0, 1, 3).dot(cell)
+            if G.equal_mod_lattice(cell, np.array(pos), q[None, :]).min() > ell + 3 * atol + 0.6:
+                pos.append(q)
+                els.append("Ar")
+                break
+    pos = G.wrap(cell, np.array(pos))
+    order = rng.permutation(len(els))
+    S = Atoms(elements=[els[i] for i in order], positions=pos[order], cell=cell)
+    P = Atoms(elements=pels, positions=np.array(ppos) + rng.uniform(-1, 1, 3))
+    n = 0
+    for k in range(6):
+        events.seed_all(case["s"] + k)
+        try:
+            idx, xs, qs = mofun.find_pattern_in_structure(S, P, atol=atol, return_positions_and_quats=True)
+            n += len(idx)
+        except Exception as e:
+            if type(e).__name__ == "PostBroken":
+                raise
+            st.count("searches_that_raised.%s" % type(e).__name__)
+        st.count("direct_searches")
+    st.count("searches_for_a_pattern_half_a_cell_edge_long", 6)
+    st.count("matches_of_a_pattern_half_a_cell_edge_long", n)
+    if n:
+        ctx.nontrivial(["half_cell", case["s"]])
 
 
 def run_case(case, ctx):
     import mofun
+    if case.get("kind") == "half_cell":
+        return run_half_cell(case, ctx)
     rng = np.random.default_rng(case["s"])
     st = ctx.stats
     pat = patterns.make(rng, case["pattern"])
@@ -196,6 +253,8 @@ def requirements(stats, tier):
                     (stats.get("matches_after_inplace_edit"), sorted(stats.sets.get("inplace_edit", []))))
     if stats.get("matches_in_unwrapped_structures") < (100 if tier == "quick" else 5000):
         need.append("matches reported for structures with atoms stored outside the cell: %d" % stats.get("matches_in_unwrapped_structures"))
+    if stats.get("matches_of_a_pattern_half_a_cell_edge_long") < (100 if tier == "quick" else 8000):
+        need.append("matches of a pattern half a cell edge long (partner atom reached through two images): %d" % stats.get("matches_of_a_pattern_half_a_cell_edge_long"))
     if stats.get("searches_with_zero_tolerance") < (50 if tier == "quick" else 5000):
         need.append("searches with a tolerance of exactly zero: %d" % stats.get("searches_with_zero_tolerance"))
     if stats.get("searches_with_every_option_by_position") < 50:
